@@ -81,13 +81,31 @@ class TaskGraph(NamedTuple):
     graph: nx.DiGraph
     mapping: dict[int, _LazyFunction]
     cache: SimpleCache
+    # The pipelines called inside the block, each with the cache it uses there.
+    owners: list[tuple[Any, SimpleCache]] | None = None
+
+    def cache_for(self, pipeline: Any) -> SimpleCache:
+        """Return the cache `pipeline` uses inside the block.
+
+        The first pipeline called inside the block uses ``cache``; every further
+        pipeline gets a cache of its own, because the keys (output name and root
+        arguments) do not tell the functions of different pipelines apart.
+        """
+        if self.owners is None:
+            return self.cache
+        for owner, cache in self.owners:
+            if owner is pipeline:
+                return cache
+        cache = SimpleCache() if self.owners else self.cache
+        self.owners.append((pipeline, cache))
+        return cache
 
 
 @contextlib.contextmanager
 def construct_dag() -> Generator[TaskGraph, None, None]:
     """Create a directed acyclic graph (DAG) for a pipeline."""
     global _TASK_GRAPH
-    _TASK_GRAPH = TaskGraph(nx.DiGraph(), {}, SimpleCache())
+    _TASK_GRAPH = TaskGraph(nx.DiGraph(), {}, SimpleCache(), [])
     try:
         yield _TASK_GRAPH
     finally:
